@@ -300,7 +300,15 @@ def get_arg_ctx_ast(
                 f"simpler sorts of arguments (no kargs or kwargs)."
                 f" The full signature was: {arg_sig}"
             )
-        if idx < num_args:
+        if idx < num_args and p.kind == Parameter.VAR_POSITIONAL and num_args > idx + 1:
+            # f(a, *rest) called with several surplus positional arguments: they all go into 'rest'
+            # (a single one keeps the hash it always had)
+            rest_hashes = [process_arg(a) for a in args[idx:]]
+            if any(rh is None for rh in rest_hashes):
+                h = None
+            else:
+                h = dds_hash([rh for rh in rest_hashes])
+        elif idx < num_args:
             # It is a list argument
             h = process_arg(args[idx])
         else:
